@@ -1,0 +1,227 @@
+//go:build verif
+
+package eip712
+
+// Contracts for the deductive checker in /verif (comment-only; compiled only with -tags verif).
+// C03 (e): EIP-712 signed Cosmos transactions, non-legacy route. Lib specs: /verif/specs/c03e (assumed codecs and encoders),
+// /verif/specs/c03 (sign_bytes, typed-data hash, chain-id parsing).
+
+/*@
+func validateCodecInit
+    ensures ok: (result == nil) == (glob_eip712_aminoCodec != nil && glob_eip712_protoCodec != nil)
+
+// all messages have exactly one signer and it is the same account for every message
+specfunc OneSigner(msgs Msgs) bool = len(msgs) > 0
+        && (forall k int :: 0 <= k && k < len(msgs) ==> len(msg_signers(msgs[k])) == 1)
+        && (forall k int :: 1 <= k && k < len(msgs) ==> bytes_eq(msg_signers(msgs[0])[0], msg_signers(msgs[k])[0]))
+
+func validatePayloadMessages
+    requires nonnil: forall k int :: 0 <= k && k < len(msgs) ==> msgs[k] != nil
+    ensures accepted: result == nil ==> OneSigner(msgs)
+    ensures rejected_empty: len(msgs) == 0 ==> result != nil
+    ensures rejected_signers: (exists k int :: 0 <= k && k < len(msgs) && len(msg_signers(msgs[k])) != 1) ==> result != nil
+    ensures rejected_other_signer: (forall k int :: 0 <= k && k < len(msgs) ==> len(msg_signers(msgs[k])) == 1)
+            && (exists k int :: 1 <= k && k < len(msgs) && !bytes_eq(msg_signers(msgs[0])[0], msg_signers(msgs[k])[0])) ==> result != nil
+    loop 1 invariant idx: 0 <= #i && #i <= len(msgs)
+    loop 1 invariant first: #i >= 1 ==> msgSigner == msg_signers(msgs[0])[0]
+    loop 1 invariant one: forall k int :: 0 <= k && k < #i ==> len(msg_signers(msgs[k])) == 1
+    loop 1 invariant same: forall k int :: 1 <= k && k < #i ==> bytes_eq(msg_signers(msgs[0])[0], msg_signers(msgs[k])[0])
+    loop 1 invariant frame: msgs == old(msgs)
+
+specfunc U64(n int) bool = 0 <= n && n <= 18446744073709551615
+
+// ------------------------------------------------------------------ protobuf sign documents (SIGN_MODE_DIRECT)
+// the decoded parts of sign-doc bytes b (assumed codecs pb_*: functions of the bytes)
+specfunc PbAuth(b Bytes) AuthInfo = pb_authinfo(pb_signdoc(b).AuthInfoBytes)
+specfunc PbBody(b Bytes) TxBody = pb_body(pb_signdoc(b).BodyBytes)
+specfunc PbDecodes(b Bytes) bool = pb_signdoc_ok(b) && pb_authinfo_ok(pb_signdoc(b).AuthInfoBytes) && pb_body_ok(pb_signdoc(b).BodyBytes)
+// message k of the body unpacks / the list of the unpacked messages of the body, in order
+specfunc PbMsgOK(b Bytes, k int) bool = unpack_msg_ok(glob_eip712_protoCodec, PbBody(b).Messages[k])
+specfunc PbMsgs(b Bytes) Msgs = msgs_of(glob_eip712_protoCodec, PbBody(b).Messages)
+// what the caller (x/auth signature verification of a transaction that passed Tx.ValidateBasic) guarantees about the
+// sign document it hands in: a fee is present, every message Any names a type (so that unpacking yields a message)
+specfunc PbWF(b Bytes) bool = PbDecodes(b) ==> PbAuth(b).Fee != nil
+        && (forall k int :: 0 <= k && k < len(PbBody(b).Messages) && PbMsgOK(b, k) ==> PbMsgs(b)[k] != nil)
+// THE TYPED DATA of a protobuf sign document: the EIP-712 domain carries the EIP-155 number of the chain-id string, the message
+// is the amino sign document of (chain id, account number, sequence, timeout height, fee amount, gas limit, payer, granter,
+// ALL messages, memo, tip)
+specfunc PbTD(b Bytes, payer string, granter string) TypedData = wrap_typed(chainid_num(pb_signdoc(b).ChainId),
+        sign_bytes(pb_signdoc(b).ChainId, pb_signdoc(b).AccountNumber, PbAuth(b).SignerInfos[0].Sequence, PbBody(b).TimeoutHeight,
+            PbAuth(b).Fee.Amount, PbAuth(b).Fee.GasLimit, payer, granter, PbMsgs(b), PbBody(b).Memo, PbAuth(b).Tip))
+// b is a protobuf sign document that can be represented: nothing in it is left out of the typed data
+specfunc PbSupported(b Bytes) bool = PbDecodes(b) && PbBody(b).TimeoutHeight == 0 && len(PbBody(b).ExtensionOptions) == 0
+        && len(PbBody(b).NonCriticalExtensionOptions) == 0 && len(PbAuth(b).SignerInfos) == 1
+        && PbAuth(b).Fee != nil && PbAuth(b).Fee.Payer == "" && PbAuth(b).Fee.Granter == ""
+        && (forall k int :: 0 <= k && k < len(PbBody(b).Messages) ==> PbMsgOK(b, k)) && OneSigner(PbMsgs(b))
+        && chainid_ok(pb_signdoc(b).ChainId)
+
+func decodeProtobufSignDoc
+    let b = signDocBytes
+    requires wf: PbWF(signDocBytes)
+    modifies heap(AnyT)
+    ensures any_content: forall p *AnyT :: p.TypeUrl == old(p.TypeUrl) && p.Value == old(p.Value)
+    // --- accepted only if ...
+    ensures decodes: result.1 == nil ==> glob_eip712_aminoCodec != nil && glob_eip712_protoCodec != nil && PbDecodes(b)
+    ensures rejected_timeout: PbDecodes(b) && PbBody(b).TimeoutHeight != 0 ==> result.1 != nil
+    ensures rejected_extension: PbDecodes(b) && len(PbBody(b).ExtensionOptions) != 0 ==> result.1 != nil
+    ensures rejected_noncritical: PbDecodes(b) && len(PbBody(b).NonCriticalExtensionOptions) != 0 ==> result.1 != nil
+    ensures rejected_signer_infos: PbDecodes(b) && len(PbAuth(b).SignerInfos) != 1 ==> result.1 != nil
+    ensures rejected_unpack: PbDecodes(b) && (exists k int :: 0 <= k && k < len(PbBody(b).Messages) && !PbMsgOK(b, k)) ==> result.1 != nil
+    ensures rejected_signers: PbDecodes(b) && !OneSigner(PbMsgs(b)) ==> result.1 != nil
+    ensures rejected_chainid: PbDecodes(b) && !chainid_ok(pb_signdoc(b).ChainId) ==> result.1 != nil
+    ensures supported: result.1 == nil ==> PbSupported(b)
+    ensures rejected_fee_payer_granter: PbDecodes(b) && PbAuth(b).Fee != nil && (PbAuth(b).Fee.Payer != "" || PbAuth(b).Fee.Granter != "") ==> result.1 != nil
+    // --- the typed data is a function of EVERY execution-relevant field of the sign document (finding M1, fixed: the StdFee is
+    // built from Amount and GasLimit only, so a document naming a fee payer or granter is now refused)
+    ensures covers: result.1 == nil && U64(chainid_num(pb_signdoc(b).ChainId)) ==> result.0 == PbTD(b, PbAuth(b).Fee.Payer, PbAuth(b).Fee.Granter)
+    loop 1 invariant idx: 0 <= #i && #i <= len(body.Messages) && len(msgs) == len(body.Messages)
+    loop 1 invariant frame: signDocBytes == old(signDocBytes) && *signDoc == pb_signdoc(b) && *authInfo == PbAuth(b) && *body == PbBody(b) && PbDecodes(b)
+            && signDoc != nil && authInfo != nil && body != nil
+    loop 1 invariant any_content: forall p *AnyT :: p.TypeUrl == old(p.TypeUrl) && p.Value == old(p.Value)
+    loop 1 invariant msgs: forall k int :: 0 <= k && k < #i ==> PbMsgOK(b, k) && msgs[k] == PbMsgs(b)[k]
+
+// ------------------------------------------------------------------ amino-JSON sign documents (SIGN_MODE_LEGACY_AMINO_JSON)
+specfunc AmDoc(b Bytes) StdSignDoc = amino_signdoc(glob_eip712_aminoCodec, b)
+specfunc AmDecodes(b Bytes) bool = amino_ok(glob_eip712_aminoCodec, b, typetag("*StdSignDoc"))
+        && amino_ok(glob_eip712_aminoCodec, AmDoc(b).Fee, typetag("*StdFee"))
+specfunc AmMsgOK(b Bytes, k int) bool = amino_ok(glob_eip712_aminoCodec, AmDoc(b).Msgs[k], typetag("*SdkMsg"))
+specfunc AmMsgs(b Bytes) Msgs = amino_msgs_of(glob_eip712_aminoCodec, AmDoc(b).Msgs)
+// caller's guarantee: no message of the sign document decodes to a nil message (JSON null)
+specfunc AmWF(b Bytes) bool = AmDecodes(b) ==> (forall k int :: 0 <= k && k < len(AmDoc(b).Msgs) && AmMsgOK(b, k) ==> AmMsgs(b)[k] != nil)
+// THE TYPED DATA of an amino sign document wraps the COMPLETE sign-document bytes (every field of the document, known or
+// unknown, is covered); the domain carries the EIP-155 number of the document's chain-id string
+specfunc AmTD(b Bytes) TypedData = wrap_typed(chainid_num(AmDoc(b).ChainID), b)
+specfunc AmSupported(b Bytes) bool = AmDecodes(b) && (forall k int :: 0 <= k && k < len(AmDoc(b).Msgs) ==> AmMsgOK(b, k))
+        && OneSigner(AmMsgs(b)) && chainid_ok(AmDoc(b).ChainID)
+
+func decodeAminoSignDoc
+    let b = signDocBytes
+    requires wf: AmWF(signDocBytes)
+    ensures decodes: result.1 == nil ==> glob_eip712_aminoCodec != nil && glob_eip712_protoCodec != nil && AmDecodes(b)
+    ensures rejected_unpack: AmDecodes(b) && (exists k int :: 0 <= k && k < len(AmDoc(b).Msgs) && !AmMsgOK(b, k)) ==> result.1 != nil
+    ensures rejected_signers: AmDecodes(b) && !OneSigner(AmMsgs(b)) ==> result.1 != nil
+    ensures rejected_chainid: AmDecodes(b) && !chainid_ok(AmDoc(b).ChainID) ==> result.1 != nil
+    ensures supported: result.1 == nil ==> AmSupported(b)
+    ensures covers: result.1 == nil && U64(chainid_num(AmDoc(b).ChainID)) ==> result.0 == AmTD(b)
+    loop 1 invariant idx: 0 <= #i && #i <= len(aminoDoc.Msgs) && len(msgs) == len(aminoDoc.Msgs)
+    loop 1 invariant frame: signDocBytes == old(signDocBytes) && aminoDoc == AmDoc(b) && AmDecodes(b) && glob_eip712_aminoCodec != nil
+    loop 1 invariant msgs: forall k int :: 0 <= k && k < #i ==> AmMsgOK(b, k) && msgs[k] == AmMsgs(b)[k]
+
+// ------------------------------------------------------------------ either encoding
+func isValidEIP712Payload
+    inline
+
+// td is the typed data of the sign document b, read as amino JSON or (if that is not accepted) as protobuf
+specfunc TypedDataOf(b Bytes, td TypedData) bool = (AmSupported(b) && (U64(chainid_num(AmDoc(b).ChainID)) ==> td == AmTD(b)))
+        || (PbSupported(b) && (U64(chainid_num(pb_signdoc(b).ChainId)) ==> td == PbTD(b, "", "")))
+
+func GetEIP712TypedDataForMsg
+    let b = signDocBytes
+    requires wf: AmWF(signDocBytes) && PbWF(signDocBytes)
+    modifies heap(AnyT)
+    ensures any_content: forall p *AnyT :: p.TypeUrl == old(p.TypeUrl) && p.Value == old(p.Value)
+    ensures accepted: result.1 == nil ==> TypedDataOf(b, result.0)
+
+// the bytes whose Keccak-256 hash is the EIP-712 digest: the raw data "\x19\x01" || domain separator || struct hash of the typed data
+specfunc TypedRaw(b Bytes, raw Bytes) bool = (AmSupported(b) && (U64(chainid_num(AmDoc(b).ChainID)) ==> raw == str2bytes(typed_raw(AmTD(b)))))
+        || (PbSupported(b) && (U64(chainid_num(pb_signdoc(b).ChainId)) ==> raw == str2bytes(typed_raw(PbTD(b, "", "")))))
+func GetEIP712BytesForMsg
+    let b = signDocBytes
+    requires wf: AmWF(signDocBytes) && PbWF(signDocBytes)
+    modifies heap(AnyT)
+    ensures any_content: forall p *AnyT :: p.TypeUrl == old(p.TypeUrl) && p.Value == old(p.Value)
+    ensures accepted: result.1 == nil ==> TypedRaw(b, result.0)
+
+// ================================================================== legacy EIP-712 encoding (encoding_legacy.go)
+// amino-JSON type name of a message ("cosmos-sdk/MsgSend"): defined / its value
+specfunc MsgTypeOK(m int) bool = amino_json_ok(glob_eip712_aminoCodec, m) && json_am_ok(amino_json(glob_eip712_aminoCodec, m))
+        && json_am(amino_json(glob_eip712_aminoCodec, m)).Type != ""
+specfunc MsgType(m int) string = json_am(amino_json(glob_eip712_aminoCodec, m)).Type
+func getMsgType
+    requires codec: glob_eip712_aminoCodec != nil
+    ensures ok: (result.1 == nil) == MsgTypeOK(msg)
+    ensures value: result.1 == nil ==> result.0 == MsgType(msg)
+
+// the legacy typed data derives its EIP-712 type schema from the FIRST message only: all messages must have its type
+specfunc SameType(msgs Msgs) bool = forall k int :: 0 <= k && k < len(msgs) ==> MsgTypeOK(msgs[k]) && MsgType(msgs[k]) == MsgType(msgs[0])
+
+func legacyValidatePayloadMessages
+    requires nonnil: forall k int :: 0 <= k && k < len(msgs) ==> msgs[k] != nil
+    requires codec: glob_eip712_aminoCodec != nil
+    ensures accepted: result == nil ==> OneSigner(msgs) && SameType(msgs)
+    ensures rejected_empty: len(msgs) == 0 ==> result != nil
+    ensures rejected_signers: (exists k int :: 0 <= k && k < len(msgs) && len(msg_signers(msgs[k])) != 1) ==> result != nil
+    ensures rejected_other_signer: (forall k int :: 0 <= k && k < len(msgs) ==> len(msg_signers(msgs[k])) == 1)
+            && (exists k int :: 1 <= k && k < len(msgs) && !bytes_eq(msg_signers(msgs[0])[0], msg_signers(msgs[k])[0])) ==> result != nil
+    ensures rejected_other_type: (exists k int :: 0 <= k && k < len(msgs) && !(MsgTypeOK(msgs[k]) && MsgType(msgs[k]) == MsgType(msgs[0]))) ==> result != nil
+    loop 1 invariant idx: 0 <= #i && #i <= len(msgs)
+    loop 1 invariant first: #i >= 1 ==> msgSigner == msg_signers(msgs[0])[0] && msgType == MsgType(msgs[0])
+    loop 1 invariant one: forall k int :: 0 <= k && k < #i ==> len(msg_signers(msgs[k])) == 1
+    loop 1 invariant same: forall k int :: 1 <= k && k < #i ==> bytes_eq(msg_signers(msgs[0])[0], msg_signers(msgs[k])[0])
+    loop 1 invariant types: forall k int :: 0 <= k && k < #i ==> MsgTypeOK(msgs[k]) && MsgType(msgs[k]) == MsgType(msgs[0])
+    loop 1 invariant frame: msgs == old(msgs)
+
+// THE LEGACY TYPED DATA: schema of the first message, message = the same sign document as in the non-legacy encoding extended
+// with the fee payer = the (single, common) signer of the messages
+specfunc LegacyPbTD(b Bytes, payer string, granter string) TypedData = typed_data(chainid_num(pb_signdoc(b).ChainId), PbMsgs(b)[0],
+        sign_bytes(pb_signdoc(b).ChainId, pb_signdoc(b).AccountNumber, PbAuth(b).SignerInfos[0].Sequence, PbBody(b).TimeoutHeight,
+            PbAuth(b).Fee.Amount, PbAuth(b).Fee.GasLimit, payer, granter, PbMsgs(b), PbBody(b).Memo, PbAuth(b).Tip),
+        msg_signers(PbMsgs(b)[0])[0])
+specfunc LegacyAmTD(b Bytes) TypedData = typed_data(chainid_num(AmDoc(b).ChainID), AmMsgs(b)[0], b, msg_signers(AmMsgs(b)[0])[0])
+
+func legacyDecodeProtobufSignDoc
+    let b = signDocBytes
+    requires wf: PbWF(signDocBytes)
+    modifies heap(AnyT)
+    ensures any_content: forall p *AnyT :: p.TypeUrl == old(p.TypeUrl) && p.Value == old(p.Value)
+    ensures decodes: result.1 == nil ==> glob_eip712_aminoCodec != nil && glob_eip712_protoCodec != nil && PbDecodes(b)
+    ensures rejected_timeout: PbDecodes(b) && PbBody(b).TimeoutHeight != 0 ==> result.1 != nil
+    ensures rejected_extension: PbDecodes(b) && len(PbBody(b).ExtensionOptions) != 0 ==> result.1 != nil
+    ensures rejected_noncritical: PbDecodes(b) && len(PbBody(b).NonCriticalExtensionOptions) != 0 ==> result.1 != nil
+    ensures rejected_signer_infos: PbDecodes(b) && len(PbAuth(b).SignerInfos) != 1 ==> result.1 != nil
+    ensures rejected_unpack: PbDecodes(b) && (exists k int :: 0 <= k && k < len(PbBody(b).Messages) && !PbMsgOK(b, k)) ==> result.1 != nil
+    ensures rejected_signers: PbDecodes(b) && !OneSigner(PbMsgs(b)) ==> result.1 != nil
+    ensures rejected_types: PbDecodes(b) && !SameType(PbMsgs(b)) ==> result.1 != nil
+    ensures rejected_chainid: PbDecodes(b) && !chainid_ok(pb_signdoc(b).ChainId) ==> result.1 != nil
+    ensures supported: result.1 == nil ==> PbSupported(b) && SameType(PbMsgs(b))
+    ensures rejected_fee_payer_granter: PbDecodes(b) && PbAuth(b).Fee != nil && (PbAuth(b).Fee.Payer != "" || PbAuth(b).Fee.Granter != "") ==> result.1 != nil
+    // finding M1, fixed (same defect as in decodeProtobufSignDoc)
+    ensures covers: result.1 == nil && U64(chainid_num(pb_signdoc(b).ChainId)) ==> result.0 == LegacyPbTD(b, PbAuth(b).Fee.Payer, PbAuth(b).Fee.Granter)
+    loop 1 invariant idx: 0 <= #i && #i <= len(body.Messages) && len(msgs) == len(body.Messages)
+    loop 1 invariant frame: signDocBytes == old(signDocBytes) && *signDoc == pb_signdoc(b) && *authInfo == PbAuth(b) && *body == PbBody(b) && PbDecodes(b)
+            && signDoc != nil && authInfo != nil && body != nil
+    loop 1 invariant any_content: forall p *AnyT :: p.TypeUrl == old(p.TypeUrl) && p.Value == old(p.Value)
+    loop 1 invariant msgs: forall k int :: 0 <= k && k < #i ==> PbMsgOK(b, k) && msgs[k] == PbMsgs(b)[k]
+
+func legacyDecodeAminoSignDoc
+    let b = signDocBytes
+    requires wf: AmWF(signDocBytes)
+    ensures decodes: result.1 == nil ==> glob_eip712_aminoCodec != nil && glob_eip712_protoCodec != nil && AmDecodes(b)
+    ensures rejected_unpack: AmDecodes(b) && (exists k int :: 0 <= k && k < len(AmDoc(b).Msgs) && !AmMsgOK(b, k)) ==> result.1 != nil
+    ensures rejected_signers: AmDecodes(b) && !OneSigner(AmMsgs(b)) ==> result.1 != nil
+    ensures rejected_types: AmDecodes(b) && !SameType(AmMsgs(b)) ==> result.1 != nil
+    ensures rejected_chainid: AmDecodes(b) && !chainid_ok(AmDoc(b).ChainID) ==> result.1 != nil
+    ensures supported: result.1 == nil ==> AmSupported(b) && SameType(AmMsgs(b))
+    ensures covers: result.1 == nil && U64(chainid_num(AmDoc(b).ChainID)) ==> result.0 == LegacyAmTD(b)
+    loop 1 invariant idx: 0 <= #i && #i <= len(aminoDoc.Msgs) && len(msgs) == len(aminoDoc.Msgs)
+    loop 1 invariant frame: signDocBytes == old(signDocBytes) && aminoDoc == AmDoc(b) && AmDecodes(b) && glob_eip712_aminoCodec != nil
+    loop 1 invariant msgs: forall k int :: 0 <= k && k < #i ==> AmMsgOK(b, k) && msgs[k] == AmMsgs(b)[k]
+
+specfunc LegacyTypedDataOf(b Bytes, td TypedData) bool = (AmSupported(b) && SameType(AmMsgs(b)) && (U64(chainid_num(AmDoc(b).ChainID)) ==> td == LegacyAmTD(b)))
+        || (PbSupported(b) && SameType(PbMsgs(b)) && (U64(chainid_num(pb_signdoc(b).ChainId)) ==> td == LegacyPbTD(b, "", "")))
+func LegacyGetEIP712TypedDataForMsg
+    let b = signDocBytes
+    requires wf: AmWF(signDocBytes) && PbWF(signDocBytes)
+    modifies heap(AnyT)
+    ensures any_content: forall p *AnyT :: p.TypeUrl == old(p.TypeUrl) && p.Value == old(p.Value)
+    ensures accepted: result.1 == nil ==> LegacyTypedDataOf(b, result.0)
+
+specfunc LegacyTypedRaw(b Bytes, raw Bytes) bool = (AmSupported(b) && SameType(AmMsgs(b)) && (U64(chainid_num(AmDoc(b).ChainID)) ==> raw == str2bytes(typed_raw(LegacyAmTD(b)))))
+        || (PbSupported(b) && SameType(PbMsgs(b)) && (U64(chainid_num(pb_signdoc(b).ChainId)) ==> raw == str2bytes(typed_raw(LegacyPbTD(b, "", "")))))
+func LegacyGetEIP712BytesForMsg
+    let b = signDocBytes
+    requires wf: AmWF(signDocBytes) && PbWF(signDocBytes)
+    modifies heap(AnyT)
+    ensures any_content: forall p *AnyT :: p.TypeUrl == old(p.TypeUrl) && p.Value == old(p.Value)
+    ensures accepted: result.1 == nil ==> LegacyTypedRaw(b, result.0)
+@*/
